@@ -2,6 +2,7 @@ SPECIFICATION Spec
 CONSTANTS
   Dev = {"wrap-args"}
   MaxCalls = 3
+  Classes = FALSE
   MaxOps = 5
 INVARIANTS Complete
 VIEW View
